@@ -72,3 +72,41 @@ Section LogGrows.
     apply reference_log_grows; exact Hs.
   Qed.
 End LogGrows.
+
+(* ================================================================ bracket structure of a covered call *)
+Section CallBracket.
+  Variable D : data.
+  Variable analyses : list (analysis (earg (d_val D))).
+  Variable modpath : string.
+
+  (* the reference evaluation of an expression of a program whose functions are [funs], with call depth [fuel] *)
+  Definition ref_call (H : list string) (funs : list fundef) (fuel : nat) : nat -> list (d_val D) -> M (d_val D) (d_world D) (d_val D) :=
+    rrun_fun (d_val D) (d_world D) (d_const D) (d_un D) (d_bin D) (d_inplace D) (d_cmp D) (d_truth D) (d_getattr D)
+             (d_setattr D) (d_getitem D) (d_setitem D) (d_call D) (d_mklist D) (d_mktuple D) (d_tuple_of_list D)
+             (d_iter D) (d_next D) (d_exc_match D) (d_exc D) (d_assertion D) (d_with_cause D) (d_as_exc D)
+             (d_as_fun D) (d_mk_fun D) (d_filt_str D) (d_is_int D) (d_line_of D) analyses modpath funs H fuel.
+  Definition ref_eval (H : list string) (funs : list fundef) (fuel : nat) (c : rctx) (e : expr) :=
+    reval (d_val D) (d_world D) (d_const D) (d_un D) (d_bin D) (d_cmp D) (d_truth D) (d_getattr D) (d_getitem D) (d_call D)
+          (d_mklist D) (d_mktuple D) (d_tuple_of_list D) (d_exc D) (d_as_fun D) (d_filt_str D) (d_is_int D) (d_line_of D)
+          analyses modpath H (ref_call H funs fuel) c e.
+
+  (* a covered call that returns: its deliveries are, in this order and nothing else, those of the operands, the
+     announcement, pre_call (callee and arguments as evaluated), whatever the callee reports, post_call (the returned
+     value); for arbitrary analyses, any call depth, any callee (program function or not) *)
+  Theorem covered_call_brackets (H : list string) (funs : list fundef) (fuel : nat) c n f args (s s' : state D) v :
+    forallb (fun fd => src_ss (f_body fd)) funs = true -> src_e f = true -> src_es args = true ->
+    (mem_str "pre_call" H || mem_str "post_call" H) = true ->
+    ref_eval H funs fuel c (ECall n f args) s = (Ok v, s') ->
+    exists fv vs rv d_ops d_ann d_pre d_callee d_post,
+      dels (eng s') = dels (eng s) ++ d_ops ++ d_ann ++ d_pre ++ d_callee ++ d_post
+      /\ Forall (fun d => d_hook d = "runtime_event" \/ d_hook d = "control_flow_event") d_ann
+      /\ Forall (fun d => d_hook d = "pre_call" /\ d_args d = [AS modpath; AI (Z.of_nat n); AV fv; AL (map AV vs); AD]) d_pre
+      /\ Forall (fun d => d_hook d = "post_call" /\ d_args d = [AS modpath; AI (Z.of_nat n); AV rv; AV fv; AT (map AV vs); AD]) d_post.
+  Proof.
+    intros Hfs Hf Ha Hc E. unfold ref_eval in E.
+    eapply call_bracket_events in E; eauto.
+    - destruct E as [fv [vs [rv [d_ops [d_ann [d_pre [d_callee [d_post [s2 [s3 [_ [_ [L [A1 [A2 A3]]]]]]]]]]]]]]].
+      exists fv, vs, rv, d_ops, d_ann, d_pre, d_callee, d_post. split; [exact L|]. split; [exact A1|]. split; [exact A2|exact A3].
+    - intros fid a. unfold ref_call. apply grows_fun. exact Hfs.
+  Qed.
+End CallBracket.
